@@ -27,6 +27,9 @@ OPT_SETS = [
 ALL_OPT_SETS = [{k: v for k, v in (("allow_key_edits", a), ("auto_match_keys", b), ("allow_list_edits", c),
                                     ("allow_list_edits_when_same_length", d)) if not v}
                 for a in (True, False) for b in (True, False) for c in (True, False) for d in (True, False)]
+# the list options alone (the only ones a CSV table can feel: its cells are strings): default, -l, -ll, both
+LIST_OPT_SETS = [{}, {"allow_list_edits": False}, {"allow_list_edits_when_same_length": False},
+                 {"allow_list_edits": False, "allow_list_edits_when_same_length": False}]
 
 SCALARS = [0, 1, 2, 10, 12, -1, -2, "a", "ab", "abc", "abd", "xbc", "", True, False, None, 1.5, 2.25,
            "hello world", "hello wrld", "1", "True", "None", "0", " "]
@@ -182,6 +185,39 @@ FORCED = [
 ]
 
 
+# CSV tables on which default / -l / -ll give three different scripts: equal numbers of rows and cells with
+# shifted / swapped content, a surplus tail, single rows and single cells
+CSV_FORCED = [
+    ([["a", "b", "c"], ["1", "2", "3"]], [["b", "c", "a"], ["1", "2", "3"]]),
+    ([["a", "b"], ["c", "d"], ["e", "f"]], [["c", "d"], ["e", "f"], ["a", "b"]]),
+    ([["a", "b"], ["c", "d"], ["e", "f"]], [["c", "d"], ["e", "f"]]),
+    ([["a", "b", "c"]], [["b", "c"]]), ([["a"]], [["b"]]), ([["a", "b"]], [["b", "a"]]), ([], [["a"]]), ([["a"], ["b"]], []),
+    ([["x", "1"], ["y", "2"]], [["x", "1"], ["new", "0"], ["y", "2"]]), ([[""]], [[]]), ([[], ["a"]], [["a"], []]),
+    ([["ab", "abc", "10"], ["x y", "", "1"]], [["abc", "10", "ab"], ["", "1", "x y"]]),
+]
+
+
+def csv_same_shape(r, a, cells):
+    """a table with the same numbers of rows and cells as `a`: rows / cells rotated, swapped or overwritten (the
+    inputs on which --no-list-edits-when-same-length changes the script)"""
+    b = [list(row) for row in a]
+    for _ in range(r.randint(1, 3)):
+        k = r.random()
+        if k < 0.3 and len(b) >= 2:
+            b = b[1:] + b[:1]
+        elif k < 0.45 and len(b) >= 2:
+            i, j = r.sample(range(len(b)), 2)
+            b[i], b[j] = b[j], b[i]
+        elif b:
+            i = r.randrange(len(b))
+            row = b[i]
+            if k < 0.7 and len(row) >= 2:
+                b[i] = row[1:] + row[:1]
+            elif row:
+                row[r.randrange(len(row))] = r.choice(cells)
+    return b
+
+
 def gen(rng, tier):
     n = 150 if tier == "quick" else 2500
     cases = []
@@ -218,16 +254,32 @@ def gen(rng, tier):
         a = ["".join(rng.choice("abcdefghijklm") for _ in range(L)) for _ in range(k)]
         b = ["".join(rng.choice("nopqrstuvwxyz") for _ in range(L)) for _ in range(k - (i % 2))]
         cases.append({"f": a if i % 3 else {"rows": a, "n": 1}, "t": b if i % 3 else {"rows": b, "n": 2}, "opts": {}})
-    # CSV tables: the real csv loader builds ListNode(rows) of ListNode(cells) of StringNodes WITHOUT the list
-    # options; at the level of edits this is the JSON diff of a list of lists of strings under default options
+    # CSV tables, through the REAL loader (a file written with the csv module, `graphtage.csv.build_tree` or the
+    # registered file type): CSVNode(rows) of CSVRow(cells) of StringNodes, both ListNodes carrying the two list
+    # options; at the level of edits this is the JSON diff of a list of lists of strings under the same options.
+    # Every pair runs under default / -l / -ll (and sometimes a fourth, arbitrary combination of all four options).
     cells = ["1", "2", "a", "b", "ab", "abc", "", "x y", "10"]
-    for _ in range(n // 4):
+    k = 0
+    for f, t in CSV_FORCED:
+        for o in LIST_OPT_SETS:
+            k += 1
+            cases.append({"f": f, "t": t, "opts": o, "via": "csv", "loader": ("module", "filetype")[k % 2]})
+    for _ in range(n // 5):
         w = rng.randint(1, 4)
         a = [[rng.choice(cells) for _ in range(w if rng.random() < 0.8 else rng.randint(1, 4))] for _ in range(rng.randint(0, 4))]
-        b = mutate(rng, a) if rng.random() < 0.85 else [[rng.choice(cells) for _ in range(rng.randint(1, 3))] for _ in range(rng.randint(0, 3))]
+        kind = rng.random()
+        if kind < 0.55:
+            b = mutate(rng, a)
+        elif kind < 0.85:
+            b = csv_same_shape(rng, a, cells)
+        else:
+            b = [[rng.choice(cells) for _ in range(rng.randint(1, 3))] for _ in range(rng.randint(0, 3))]
         b = [[str(c) if not isinstance(c, str) else c for c in (row if isinstance(row, list) else [row])] for row in (b if isinstance(b, list) else [[b]])]
         b = [[c if isinstance(c, str) else "x" for c in row] for row in b]
-        cases.append({"f": a, "t": b, "opts": {}, "via": "csv"})
+        osets = LIST_OPT_SETS[:3] + ([rng.choice(ALL_OPT_SETS)] if rng.random() < 0.3 else [])
+        for o in osets:
+            k += 1
+            cases.append({"f": a, "t": b, "opts": o, "via": "csv", "loader": ("module", "filetype")[k % 2]})
     # a list and the same list with two unequal elements swapped (all-leaf lists and mixed ones)
     for _ in range(n // 3):
         a = [rng.choice(SCALARS) if rng.random() < 0.8 else gen_doc(rng, 2) for _ in range(rng.randint(2, 5))]
@@ -447,26 +499,66 @@ def _marks_check(root):
     return problems
 
 
-def _csv_tree(rows, o):
-    from graphtage import csv as gc, json as gj
-    import graphtage
-    out = []
-    for row in rows:
-        rowdata = [gj.build_tree(i, options=o) for i in row]
-        for col in rowdata:
-            if isinstance(col, graphtage.StringNode):
-                col.quoted = False
-        out.append(gc.CSVRow(rowdata))
-    return gc.CSVNode(out)
+_TMP = None
 
 
-def one(f, t, opts, via=None):
+def _tmpdir():
+    """a private scratch directory under verif/.tmp (git-ignored), removed when the worker exits"""
+    global _TMP
+    if _TMP is None:
+        import atexit, os, shutil, tempfile
+        base = os.path.join(os.path.dirname(os.path.dirname(os.path.dirname(os.path.abspath(__file__)))), ".tmp")
+        os.makedirs(base, exist_ok=True)
+        _TMP = tempfile.mkdtemp(prefix="csv", dir=base)
+        atexit.register(shutil.rmtree, _TMP, True)
+    return _TMP
+
+
+def _csv_file(rows):
+    import csv, os, tempfile
+    fd, path = tempfile.mkstemp(suffix=".csv", dir=_tmpdir())
+    with os.fdopen(fd, "w", newline="") as fh:
+        csv.writer(fh).writerows(rows)
+    return path
+
+
+def _csv_rows(path):
+    """what Python's csv module reads back from the file (parsing is outside graphtage): the document the model is given"""
+    import csv
+    with open(path) as fh:
+        return [list(row) for row in csv.reader(fh)]
+
+
+def _csv_tree(path, o, loader="module"):
+    """the REAL loader on a CSV file: `graphtage.csv.build_tree`, or the registered file type's `build_tree`"""
+    if loader == "filetype":
+        from graphtage.graphtage import FILETYPES_BY_TYPENAME
+        return FILETYPES_BY_TYPENAME["csv"].build_tree(path, o)
+    from graphtage import csv as gc
+    return gc.build_tree(path, o)
+
+
+def one(f, t, opts, via=None, loader="module"):
     import graphtage
     from graphtage import json as gj
     del _RECORD[:]
     o = graphtage.BuildOptions(**opts)
     if via == "csv":
-        build = lambda x: _csv_tree(x, o)
+        import os
+        paths = {}
+        try:
+            paths["f"] = _csv_file(f)
+            paths["t"] = _csv_file(t)
+            docs = [_csv_rows(paths["f"]), _csv_rows(paths["t"])]
+            obs = _one(lambda w: _csv_tree(paths[w], o, loader), "f", "t")
+            obs["docs"] = docs
+            return obs
+        finally:
+            for p in paths.values():
+                try:
+                    os.unlink(p)
+                except OSError:
+                    pass
     else:
         build = lambda x: gj.build_tree(x, o)
     return _one(build, f, t)
@@ -502,15 +594,28 @@ def _one(build, f, t):
         kinds.append(next((k for c, k in ((Remove, "remove"), (Insert, "insert"), (StringEdit, "str"), (Replace, "replace"),
                                           (Match, "match")) if isinstance(ed, c)), "other:" + type(ed).__name__))
     eq = bool(A._children == B._children) if type(A).__name__ == "CSVNode" else bool(A == B)   # CSVNode.__eq__ also equates "empty" tables
-    return {"script": script, "oracle": oracle, "root": root, "edited_cost": int(edited), "flat_sum": flat,
-            "flat_n": nflat, "flat_kinds": sorted(kinds), "marks": marks, "eq": eq, "sizes": [int(A.total_size), int(B.total_size)]}
+    obs = {"script": script, "oracle": oracle, "root": root, "edited_cost": int(edited), "flat_sum": flat,
+           "flat_n": nflat, "flat_kinds": sorted(kinds), "marks": marks, "eq": eq, "sizes": [int(A.total_size), int(B.total_size)]}
+    if type(A).__name__ == "CSVNode":
+        # the classes and list flags the loader gave the table and its first row (informative only; C10 is judged on the script)
+        def flags(n):
+            return [type(n).__name__, bool(n.allow_list_edits), bool(n.allow_list_edits_when_same_length)]
+        obs["classes"] = [flags(n) for T in (A, B) for n in [T] + list(T._children)[:1]]
+    return obs
 
 
 def impl(case):
-    obs = one(case["f"], case["t"], case.get("opts", {}), case.get("via"))
+    obs = one(case["f"], case["t"], case.get("opts", {}), case.get("via"), case.get("loader", "module"))
     if "f2" in case:
-        obs["perm"] = one(case["f2"], case["t2"], case.get("opts", {}), case.get("via"))
+        obs["perm"] = one(case["f2"], case["t2"], case.get("opts", {}), case.get("via"), case.get("loader", "module"))
     return obs
+
+
+def _docs(case, obs):
+    """the two documents the trees were built from: for CSV what the csv module parsed back from the files"""
+    if isinstance(obs, dict) and obs.get("docs"):
+        return obs["docs"]
+    return [case["f"], case["t"]]
 
 
 # ------------------------------------------------------------------------------------------------ model side
@@ -541,7 +646,10 @@ def to_model(case, obs):
     if not MODEL_READY or not isinstance(obs, dict) or obs.get("error"):
         return None
     o = case.get("opts", {})
-    return {"s": "script", "f": enc(case["f"]), "t": enc(case["t"]),
+    f, t = _docs(case, obs)
+    # `via: csv`: a CSV table is a list (rows) of lists (cells) of strings, all three built with the same options as
+    # `json.build_tree` would build that document — the model runs the L2 `edits` on exactly that tree
+    return {"s": "script", "f": enc(f), "t": enc(t),
             "ake": o.get("allow_key_edits", True), "amk": o.get("auto_match_keys", True),
             "ale": o.get("allow_list_edits", True), "alesl": o.get("allow_list_edits_when_same_length", True),
             "oracle": [r for r in obs.get("oracle", []) if "pairs" in r]}
@@ -796,7 +904,8 @@ def monitor(case, obs):
         return [{"prop": p, "key": key, "what": what} for p in ("C01", "C02", "C03", "C04", "C05", "C08", "C10")]
     opts = case.get("opts", {})
     raw = []
-    _walk(obs["script"], case["f"], case["t"], opts, raw)
+    cf, ct = _docs(case, obs)
+    _walk(obs["script"], cf, ct, opts, raw)
     root = obs["script"][3]
     # ---- C03: the three views
     if isinstance(root, int):
@@ -812,7 +921,7 @@ def monitor(case, obs):
     for kind, what in obs.get("marks", []) or []:
         raw.append(("C01", "marks:" + kind, "annotated tree (diff()): " + what))
     # ---- C02
-    de = data_eq(case["f"], case["t"])
+    de = data_eq(cf, ct)
     if de is not None and isinstance(root, int):
         if de and root != 0:
             raw.append(("C02", "equal-but-cost", f"documents are equal as data but cost is {root}"))
@@ -823,10 +932,10 @@ def monitor(case, obs):
         if de != obs["eq"]:
             raw.append(("C02", "node-eq-vs-data-eq", f"tree equality is {obs['eq']} but the documents are {'equal' if de else 'different'} as data"))
     # ---- C08 (second sentence): swapping two unequal elements of a list always yields a non-zero cost
-    if isinstance(root, int) and root == 0 and isinstance(case["f"], list) and isinstance(case["t"], list) \
-            and len(case["f"]) == len(case["t"]) and de is False:
-        diffs = [i for i, (x, y) in enumerate(zip(case["f"], case["t"])) if data_eq(x, y) is False]
-        if len(diffs) == 2 and data_eq(case["f"][diffs[0]], case["t"][diffs[1]]) and data_eq(case["f"][diffs[1]], case["t"][diffs[0]]):
+    if isinstance(root, int) and root == 0 and isinstance(cf, list) and isinstance(ct, list) \
+            and len(cf) == len(ct) and de is False:
+        diffs = [i for i, (x, y) in enumerate(zip(cf, ct)) if data_eq(x, y) is False]
+        if len(diffs) == 2 and data_eq(cf[diffs[0]], ct[diffs[1]]) and data_eq(cf[diffs[1]], ct[diffs[0]]):
             raw.append(("C08", "list-swap-zero", f"swapping elements {diffs[0]} and {diffs[1]} of a list costs 0"))
     # ---- C08: key permutation invariance
     if "perm" in obs and isinstance(root, int):
@@ -834,7 +943,7 @@ def monitor(case, obs):
         if p["script"][3] != root:
             raw.append(("C08", "perm-cost", f"cost {root} becomes {p['script'][3]} after permuting mapping keys"))
         else:
-            a = _pairing(obs["script"], case["f"], case["t"], opts)
+            a = _pairing(obs["script"], cf, ct, opts)
             b = _pairing(p["script"], case["f2"], case["t2"], opts)
             if a != b:
                 d = sorted(map(repr, a ^ b))[:4]
